@@ -16,7 +16,7 @@ LEVEL = 'exploration'
 RULE = ('Hypothesis rule-based state machine (<= 12 steps); every history runs in its own forked child process. Rules: '
         'run / call / evaluate / import of a second student file with a termination mode from {normal, Exception subclasses, '
         'exception with failing __str__, SystemExit, KeyboardInterrupt, GeneratorExit, custom BaseException subclass, timeout '
-        '(threaded busy loop, allowed_time 0.2 s), student code replacing sys.stdout / time.sleep itself}, threaded or not, '
+        '(threaded busy loop or a thread blocked for good on a lock, allowed_time 0.2 s), student code replacing sys.stdout / time.sleep itself}, threaded or not, '
         'tracer style none/native/calls/coverage, clear_sandbox, allow_real_io/block_real_io. Invariant after every rule, '
         'whether the call returned or raised: sys.stdout, time.sleep, sys.gettrace(), the key set and module objects of '
         'sys.modules are the baseline ones, the sandbox patch/stdout stacks are empty and a probe run captures exactly its '
@@ -43,13 +43,14 @@ BASE = ('import sys\n'
         '    if mode == "generator-exit":\n        raise GeneratorExit\n'
         '    if mode == "base-exception":\n        raise Stop("stop")\n'
         '    if mode == "busy-loop":\n        while True:\n            pass\n'
+        '    if mode == "block-forever":\n        import threading\n        gate = threading.Lock()\n        gate.acquire()\n        gate.acquire()\n        return 9\n'
         '    if mode == "replace-stdout":\n        import io\n        sys.stdout = io.StringIO()\n        print("lost")\n        return 2\n'
         '    if mode == "replace-sleep":\n        import time\n        time.sleep = lambda s: None\n        return 3\n'
         '    if mode == "import-json":\n        import colorsys, wave, sunau\n        return len(colorsys.__name__)\n'
         '    if mode == "recursion":\n        return finish(mode)\n'
         '    return 0\n')
 MODES = ['normal', 'value-error', 'key-error', 'bad-str', 'system-exit', 'keyboard-interrupt', 'generator-exit', 'base-exception',
-         'busy-loop', 'replace-stdout', 'replace-sleep', 'import-json', 'recursion']
+         'busy-loop', 'block-forever', 'replace-stdout', 'replace-sleep', 'import-json', 'recursion']
 ABNORMAL = set(MODES) - {'normal', 'import-json'}
 ENTRIES = ['run', 'call', 'evaluate', 'import']
 
@@ -89,9 +90,12 @@ class ChildState:
     def quiesce(self):
         import threading
         deadline = time.time() + 3
+        waited = self.__dict__.setdefault('_waited', set())
         for t in list(threading.enumerate()):
-            if t is not threading.current_thread() and type(t).__name__ == 'InterruptableThread':
-                t.join(max(0.0, deadline - time.time()))
+            if t is not threading.current_thread() and type(t).__name__ == 'InterruptableThread' and t.ident not in waited:
+                t.join(max(0.0, min(deadline - time.time(), 1.0)))
+                if t.is_alive():
+                    waited.add(t.ident)     # blocked for good (uninterruptible): do not wait for it again
 
     def check(self, what):
         import time as _time
@@ -104,7 +108,10 @@ class ChildState:
             viol.append(('C05|time.sleep-not-restored', 'after %s: time.sleep is %r' % (what, _time.sleep)))
             _time.sleep = self.base_sleep
         if sys.gettrace() is not self.base_trace:
-            viol.append(('C05|trace-not-restored', 'after %s: sys.gettrace() is %r' % (what, sys.gettrace())))
+            cell = 'C05|trace-not-restored'
+            if self.__dict__.get('blocked_under_coverage') and 'coverage' in type(sys.gettrace()).__module__:
+                cell += '|coverage-collector-of-blocked-thread'
+            viol.append((cell, 'after %s: sys.gettrace() is %r' % (what, sys.gettrace())))
             sys.settrace(self.base_trace)
         added = sorted(set(sys.modules) - set(self.base_modules))
         removed = sorted(set(self.base_modules) - set(sys.modules))
@@ -152,11 +159,13 @@ class ChildState:
         try:
             if kind == 'exec':
                 sb.threaded = op['threaded']
-                sb.allowed_time = 0.2 if op['mode'] == 'busy-loop' else 5
-                if op['mode'] == 'busy-loop':
+                sb.allowed_time = 0.2 if op['mode'] in ('busy-loop', 'block-forever') else 5
+                if op['mode'] in ('busy-loop', 'block-forever'):
                     sb.threaded = True
                 sb.tracer_style = op['tracer']
                 mode, entry = op['mode'], op['entry']
+                if mode == 'block-forever' and op['tracer'] == 'coverage':
+                    self.blocked_under_coverage = True
                 what = '%s(%s, threaded=%s, tracer=%s)' % (entry, mode, sb.threaded, op['tracer'])
                 if entry == 'run':
                     sb.run('finish(%r)\n' % mode, filename='answer.py')
